@@ -626,36 +626,50 @@ func c06RunStress(in c06In, slow time.Duration) (obs c06Obs) {
 						if err != nil {
 							break
 						}
-						_, _ = s.Write([]byte{0, 0}) // negotiation is flushed, the handler starts and waits for the rest
-						open = append(open, s)
-						nHs.Add(1)
-					}
-					for k, s := range open {
-						if (k+g)%2 == 0 {
+						// a complete frame that does not decode: the handler starts, fails and ends
+						if _, err := s.Write(c06Frame([]byte{0xff, byte(k), byte(g)})); err != nil {
 							_ = s.Reset()
-						} else {
-							_ = s.Close()
+							break
 						}
+						open = append(open, s)
+					}
+					// wait until the Service has ended each of them (it resets the stream and closes the connection)
+					var one [1]byte
+					for _, s := range open {
+						_ = s.SetReadDeadline(time.Now().Add(2 * time.Second))
+						if _, err := s.Read(one[:]); err != nil {
+							nHs.Add(1)
+						}
+						_ = s.Reset()
 					}
 				}
 			}(g)
 		}
 	}
-	// a registered peer that keeps repeating a complete valid handshake
-	reg, err := c06RawHost(regKey)
-	if err != nil {
-		return c06Obs{Res: 2, Note: "raw host: " + err.Error()}
-	}
-	hosts = append(hosts, reg)
-	if err := c06Initiate(ctx, reg, regKey, foreign, svc, "E2Honest", 0, r); err == nil {
-		for g := 0; g < 2; g++ {
+	// registered peers that keep repeating a complete valid handshake (the Service answers "peer
+	// already exists" and keeps the connection)
+	for i := 0; i < in.Hammers; i++ {
+		k := regKey
+		if i > 0 {
+			k = c06KeyFrom(r)
+		}
+		reg, err := c06RawHost(k)
+		if err != nil {
+			return c06Obs{Res: 2, Note: "raw host: " + err.Error()}
+		}
+		hosts = append(hosts, reg)
+		if c06Initiate(ctx, reg, k, foreign, svc, "E2Honest", 0, r) != nil {
+			continue
+		}
+		for g := 0; g < 3; g++ {
 			wg.Add(1)
-			rr := rand.New(rand.NewSource(in.Seed + int64(g) + 1))
+			rr := rand.New(rand.NewSource(in.Seed + int64(16*i+g) + 1))
 			go func() {
 				defer wg.Done()
 				for !stopped() {
-					if c06Initiate(ctx, reg, regKey, foreign, svc, "E2Honest", 0, rr) != nil {
+					if c06Initiate(ctx, reg, k, foreign, svc, "E2Honest", 0, rr) != nil {
 						time.Sleep(time.Millisecond)
+						continue
 					}
 					nRedo.Add(1)
 				}
@@ -678,8 +692,15 @@ func c06RunStress(in c06In, slow time.Duration) (obs c06Obs) {
 					if err != nil {
 						continue
 					}
-					_, _ = s.Write([]byte{0})
-					nStreams.Add(1)
+					// the write flushes the protocol negotiation; the read returns once the Service's stream
+					// wrapper has looked the peer up (waitHandshake) and reset the stream
+					var one [1]byte
+					_ = s.SetDeadline(time.Now().Add(2 * time.Second))
+					if _, err := s.Write([]byte{0}); err == nil {
+						if _, err := s.Read(one[:]); err != nil {
+							nStreams.Add(1)
+						}
+					}
 					_ = s.Reset()
 				}
 			}()
